@@ -11,7 +11,10 @@
 package main
 
 import (
+	"encoding/json"
 	"fmt"
+	"os"
+	"path/filepath"
 	"reflect"
 	"sort"
 	"strings"
@@ -98,6 +101,71 @@ func obsSlice(v reflect.Value) string {
 	}
 	full := v.Slice(0, v.Cap())
 	return fmt.Sprintf("nil=%v len=%d cap=%d elems=%#v", v.IsNil(), v.Len(), v.Cap(), full.Interface())
+}
+
+// ---------------------------------------------------------------- Coq cases for Verif.C34.ContModel
+// descriptors are taken from the implementation's own reflect.Values: operand before the call (offset 0 by convention),
+// result after the call; the offset of the result is the pointer difference in elements when it lies in the operand's array
+type rdesc struct {
+	ptr      uintptr
+	len, cap int
+	ok       bool
+}
+
+func descOf(v reflect.Value) rdesc {
+	if !v.IsValid() || v.Kind() != reflect.Slice {
+		return rdesc{}
+	}
+	return rdesc{v.Pointer(), v.Len(), v.Cap(), true}
+}
+
+func (h *H) contCase(kind string, before, after rdesc, size uintptr, args []int, pan string, input interface{}) {
+	if !before.ok || before.cap == 0 || len(h.ccases) >= h.cquota {
+		return
+	}
+	obs := "OPanic"
+	if pan == "" {
+		if !after.ok {
+			return
+		}
+		lo, hi := before.ptr, before.ptr+uintptr(before.cap)*size
+		if after.cap == 0 || (after.ptr >= lo && after.ptr <= hi) {
+			off := 0
+			if after.cap != 0 {
+				off = int((after.ptr - lo) / size)
+			}
+			obs = fmt.Sprintf("(OSl %d %d %d)", off, after.len, after.cap)
+		} else {
+			obs = fmt.Sprintf("(OFresh %d)", after.len)
+		}
+	} else if pan != "panic:index" {
+		return
+	}
+	var as []string
+	for _, a := range args {
+		as = append(as, vh.CoqZ(int64(a)))
+	}
+	h.ccases = append(h.ccases, fmt.Sprintf("%s %d %d %d %s %s", kind, h.idx, before.len, before.cap, strings.Join(as, " "), obs))
+	h.rep.CaseInput(h.idx, input)
+	h.idx++
+}
+
+func (h *H) writeContCases() {
+	const per = 300
+	for n := 0; n*per < len(h.ccases); n++ {
+		e := (n + 1) * per
+		if e > len(h.ccases) {
+			e = len(h.ccases)
+		}
+		var sb strings.Builder
+		sb.WriteString("From Coq Require Import List ZArith.\nFrom Verif Require Import C34.ContModel.\nImport ListNotations.\nOpen Scope Z_scope.\n")
+		sb.WriteString("Definition cases : list ccase := [\n " + strings.Join(h.ccases[n*per:e], ";\n ") + "\n].\n")
+		sb.WriteString("Definition verif_mismatches : list Z := Eval vm_compute in cmismatches cases.\nPrint verif_mismatches.\n")
+		if err := os.WriteFile(h.a.Path(fmt.Sprintf("cases_cont_%03d.v", n)), []byte(sb.String()), 0o644); err != nil {
+			panic(err)
+		}
+	}
+	h.rep.Extra["coq_container_cases"] = len(h.ccases)
 }
 
 // ---------------------------------------------------------------- slices and arrays
@@ -231,9 +299,19 @@ func sliceWorld[E comparable](h *H, g elemGen[E], arr bool, nscripts, nsteps int
 			}
 			return r.Intn(limit)
 		}
+		var zero E
+		esize := reflect.TypeOf(zero).Size()
+		operand := func(y int) rdesc { // descriptor of variable y in the interpreter, before the call
+			src := names[y]
+			if arr && y == 0 {
+				src += "[:]"
+			}
+			v, _ := sc.peek(src)
+			return descOf(v)
+		}
 		observe()
 		for step := 0; step < nsteps && !sc.bad; step++ {
-			y := r.Intn(3)  // operand variable
+			y := r.Intn(3)     // operand variable
 			x := 1 + r.Intn(2) // destination variable (t or u)
 			Y, X := names[y], names[x]
 			yIsArr := arr && y == 0
@@ -254,7 +332,9 @@ func sliceWorld[E comparable](h *H, g elemGen[E], arr bool, nscripts, nsteps int
 				if !yIsArr && r.Chance(1, 4) {
 					src = fmt.Sprintf("%s = %s2(%s, %d, %d)", X, W, Y, i, j)
 				}
+				before := operand(y)
 				_, gp = sc.exec(src)
+				h.contCase("KSlice", before, operand(x), esize, []int{i, j}, gp, src)
 				wp = native(func() {
 					if yIsArr {
 						*slot(x) = a[i:j]
@@ -275,7 +355,9 @@ func sliceWorld[E comparable](h *H, g elemGen[E], arr bool, nscripts, nsteps int
 				if !yIsArr && r.Chance(1, 4) {
 					src = fmt.Sprintf("%s = %s3(%s, %d, %d, %d)", X, W, Y, ix[0], ix[1], ix[2])
 				}
+				before := operand(y)
 				_, gp = sc.exec(src)
+				h.contCase("KSlice3", before, operand(x), esize, ix, gp, src)
 				wp = native(func() {
 					if yIsArr {
 						*slot(x) = a[ix[0]:ix[1]:ix[2]]
@@ -305,7 +387,9 @@ func sliceWorld[E comparable](h *H, g elemGen[E], arr bool, nscripts, nsteps int
 					}
 					src = fmt.Sprintf("%s = %s.AppendString(%q)", X, Y, string(bs))
 				}
+				before := operand(y)
 				_, gp = sc.exec(src)
+				h.contCase("KAppend", before, operand(x), esize, []int{k}, gp, src)
 				wp = native(func() { *slot(x) = append(*slot(y), vs...) })
 			case 7: // SetIndex / AddrIndex store
 				i := idx(lenOf(y))
@@ -547,7 +631,65 @@ func chanWorld(h *H, nscripts, nsteps int) {
 	}
 }
 
+// corpus/C34/*.json: exact inputs of past findings, run first.  want = fmt %#v of the values compiled Go produces
+type corpusC34 struct {
+	Key          string   `json:"key"`
+	Declarations []string `json:"declarations"`
+	Checks       []struct {
+		Src  string `json:"src"`
+		Want string `json:"want"`
+	} `json:"checks"`
+}
+
+func containerCorpus(h *H) {
+	dir := os.Getenv("VERIF_DIR")
+	if dir == "" {
+		dir = "/verif"
+	}
+	files, _ := filepath.Glob(filepath.Join(dir, "corpus", "C34", "*.json"))
+	sort.Strings(files)
+	for _, f := range files {
+		b, err := os.ReadFile(f)
+		if err != nil {
+			continue
+		}
+		var c corpusC34
+		if err := json.Unmarshal(b, &c); err != nil {
+			panic(fmt.Sprintf("corpus %s: %v", f, err))
+		}
+		key := c.Key
+		if key == "" {
+			key = "corpus:" + filepath.Base(f)
+		}
+		sc := &script{h: h, world: "corpus " + filepath.Base(f), decl: c.Declarations}
+		fail := func(what string, got, want interface{}) {
+			if !sc.bad {
+				sc.bad = true
+				h.rep.Fail(vh.Failure{Key: key, What: "container CTI method differs from the compiled Go operator/builtin: " + what, Input: sc.input(), Got: fmt.Sprint(got), Want: fmt.Sprint(want)})
+			}
+		}
+		for _, d := range c.Declarations {
+			if p := vh.Catch(func() { h.ir.Eval(d) }); p != nil {
+				fail("declaration fails: "+d, p, "compiles")
+			}
+		}
+		for _, ck := range c.Checks {
+			vals, pan := sc.exec(ck.Src)
+			var parts []string
+			for _, v := range vals {
+				parts = append(parts, fmt.Sprintf("%#v", v.Interface()))
+			}
+			if got := strings.Join(parts, " "); pan != "" || got != ck.Want {
+				fail(ck.Src, got+" "+pan, ck.Want)
+			}
+			h.rep.Count("ccorpus:"+ck.Src, true)
+		}
+		h.rep.Dist("container:corpus")
+	}
+}
+
 func containerScripts(h *H) {
+	containerCorpus(h)
 	ns, steps := 24, 14
 	if h.a.Thorough() {
 		ns, steps = 400, 30
@@ -565,4 +707,5 @@ func containerScripts(h *H) {
 	sliceWorld(h, gb, true, ns/2, steps)
 	mapWorld(h, ns, steps)
 	chanWorld(h, ns, steps)
+	h.writeContCases()
 }
